@@ -142,3 +142,12 @@ ENTRIES += [
     B('regress-header-splitlines', "        lines = split_lines(unfold_lines(string))\n", "        lines = unfold_lines(string).splitlines()\n", 'C08-D5', NVF),
     B('regress-unfold-splitlines', "    lines = split_lines(string)\n    line_buffer = io.StringIO()", "    lines = string.splitlines()\n    line_buffer = io.StringIO()", 'C08-D5', NVF),
 ]
+
+HC = 'wpull/protocol/http/client.py'
+_WF_OLD = "        read_future = self._stream.read_body(self._request, self._response, file=file, raw=raw)\n\n        try:\n            yield from asyncio.wait_for(read_future, timeout=duration_timeout)\n        except asyncio.TimeoutError as error:\n            raise DurationTimeout(\n                'Did not finish reading after {} seconds.'\n                    .format(duration_timeout)\n            ) from error\n"
+_WF_WAIT = "        read_future = asyncio.ensure_future(\n            self._stream.read_body(self._request, self._response, file=file, raw=raw))\n\n        done, pending = yield from asyncio.wait(\n            [read_future], timeout=duration_timeout)\n\n        if pending:\n            read_future.cancel()\n            raise DurationTimeout(\n                'Did not finish reading after {} seconds.'\n                    .format(duration_timeout)\n            )\n"
+ENTRIES += [
+    {'id': 'C08/read-parked-in-wait', 'prop': 'C08', 'kind': 'break', 'expect': 'C08-D6', 'edits': [(HC, _WF_OLD, _WF_WAIT)]},
+    {'id': 'C08/benign-read-wait-then-result', 'prop': 'C08', 'kind': 'benign', 'edits': [(HC, _WF_OLD, _WF_WAIT + "\n        read_future.result()\n")]},
+    {'id': 'C04/read-parked-in-wait', 'prop': 'C04', 'kind': 'break', 'expect': 'C04-D2', 'edits': [(HC, _WF_OLD, _WF_WAIT)]},
+]
